@@ -12,6 +12,31 @@ use std::sync::Mutex;
 pub type Source = Box<dyn FnMut(i32) -> (i64, i64) + Send>;
 
 static ENABLED: AtomicBool = AtomicBool::new(false);
+/// When set, only threads that opted in read virtual time (harness threads keep the real clock,
+/// which their own timed waits need).
+static PER_THREAD: AtomicBool = AtomicBool::new(false);
+
+thread_local! {
+    static THIS_THREAD: std::cell::Cell<bool> = const { std::cell::Cell::new(false) };
+}
+
+/// Make the virtual source apply only to threads that call `set_thread_virtual(true)`.
+pub fn per_thread_mode(on: bool) {
+    PER_THREAD.store(on, Ordering::SeqCst);
+}
+
+/// Opt the calling thread in or out of virtual time (only meaningful in per-thread mode).
+pub fn set_thread_virtual(on: bool) -> bool {
+    THIS_THREAD.with(|t| t.replace(on))
+}
+
+/// Run `f` with the calling thread reading virtual time.
+pub fn with_virtual<R>(f: impl FnOnce() -> R) -> R {
+    let prev = set_thread_virtual(true);
+    let r = f();
+    set_thread_virtual(prev);
+    r
+}
 static READS: AtomicU64 = AtomicU64::new(0);
 static SOURCE: Mutex<Option<Source>> = Mutex::new(None);
 
@@ -49,7 +74,7 @@ pub fn real_clock_ns(clk: i32) -> i128 {
 #[cfg(not(miri))]
 #[no_mangle]
 pub unsafe extern "C" fn clock_gettime(clk: libc::clockid_t, ts: *mut libc::timespec) -> libc::c_int {
-    if ENABLED.load(Ordering::SeqCst) {
+    if ENABLED.load(Ordering::SeqCst) && (!PER_THREAD.load(Ordering::SeqCst) || THIS_THREAD.with(|t| t.get())) {
         let mut guard = SOURCE.lock().unwrap_or_else(|e| e.into_inner());
         if let Some(source) = guard.as_mut() {
             let (sec, nsec) = source(clk);
